@@ -1,4 +1,4 @@
-"""C09 -- computing changes is pure; performing touches only what was announced (R09.1-R09.13)."""
+"""C09 -- computing changes is pure; performing touches only what was announced (R09.1-R09.15)."""
 from __future__ import annotations
 
 import ast
@@ -28,6 +28,8 @@ EXPLANATION += " R09.5: a resource found by resolving a name is sanitised by a p
 EXPLANATION += ' R09.11: a function that remembers its answer under a key reads, in the computation of the remembered value, nothing of its parameters that the key does not contain (followed into the helpers it calls).'
 EXPLANATION += " R09.12: the resource of an object known only as an AbstractModule (builtin modules have none) is compared with None before use."
 EXPLANATION += " R09.13: every while loop that steps an index forward through a text compares the index with the length in its test."
+EXPLANATION += " R09.14: in the word finder an offset clamped to len(self.code) is never handed to a method that reads self.code at that offset."
+EXPLANATION += " R09.15 (=R16.11): the writer hands the announced text to the encoder without an explicit encoding -- what reaches the disk is the previewed text in the codec it declares, on every path (no fallback codec in a handler)."
 ASSUMPTIONS = [
     "callee resolution without a type checker: see DESIGN.md section 2 (E2)",
     "resources handed in by the caller (constructor/get_changes parameters) are the caller's responsibility (CALLER provenance is accepted)",
@@ -943,6 +945,12 @@ def check(ctx, res) -> None:
     from .common import memo_key_rule
 
     memo_key_rule(ctx, res, "R09.11", ("rope.base.resources", "rope.base.project", "rope.base.fscommands", "rope.base.libutils"))
+    from .c16 import encoding_from_text_rule
+
+    encoding_from_text_rule(ctx, res, "R09.15")
+    from .common import clamped_offset_rule as _co
+
+    _co(ctx, res, "R09.14")
     from .common import bounded_scan_rule as _bs
 
     _bs(ctx, res, "R09.13")
@@ -970,12 +978,21 @@ def module_without_file_rule(ctx, res, rule: str) -> None:
             continue
         node = common.inlined(idx, f)
         cfg = CFG(node)
+
+        def via_predicate(t) -> bool:
+            """a predicate of the class with several statements whose body tests `isinstance(<object>, AbstractModule)`"""
+            for c_ in ast.walk(t):
+                if isinstance(c_, ast.Call) and is_self_attr(c_.func) and f.cls is not None:
+                    pm = idx.find_method(f.cls.qualname, c_.func.attr)
+                    if pm is not None and is_abstract_test(pm.node):
+                        return True
+            return False
         sites = []  # get_resource() calls made where the object is known only as an AbstractModule
         for c in ast.walk(node):
             if not (isinstance(c, ast.Call) and call_name(c) == "get_resource" and not c.args):
                 continue
             for nd in cfg.node_containing(c):
-                if any(pol and is_abstract_test(t) for t, pol in cfg.guards(nd.id)):
+                if any(pol and (is_abstract_test(t) or via_predicate(t)) for t, pol in common.plain_guards(cfg, nd.id)):
                     sites.append(c)
                     break
         for x in ast.walk(node):
